@@ -244,7 +244,7 @@ def rule_sg6(A: Analysis, rep):
               "", "_extract_any does not pop exactly one entry")
     # field-access inventory: who touches the pipe ends and the list
     users = {}
-    for f in A.prog.functions.values():
+    for f in A.prog.scan_functions:
         for n in walk_local(f.node):
             if isinstance(n, ast.Attribute) and n.attr in ("_returncodes", "_read_pipe", "_write_pipe"):
                 users.setdefault(n.attr, set()).add(f.name)
